@@ -45,7 +45,7 @@ ASSUMPTIONS = ['foreign .tsv files never reuse a saved field name (glob order wo
                'numeric-looking string values are not generated (the TSV layer cannot represent them)',
                'no operation other than reload is applied to a closed model']
 NSHARDS = 16
-FIELDS = ['group', 'quality', 'my note', 'ks.label', 'ks.contam']       # (dotted names sharing a stem)
+FIELDS = ['group', 'quality', 'my note', 'ks.label', 'ks.contam', 'info_source']       # (dotted names sharing a stem)
 STRS = ['good', 'mua', 'needs review', 'a,b', 'tab\there', 'say "hi"', "it's", 'é', ' lead', 'trail ', ' both ']
 REDUCED = [('clusters', 1), ('clusters', 2), ('meta', 'group', 1), ('meta', 'group', 2), ('meta', 'quality', 3),
            ('foreign', 'valid_tsv'), ('foreign', 'garbage'), ('subset', 3, 2, 1.0), ('close',)]
@@ -167,6 +167,13 @@ def _run(case, ctx, d):
         spec.spike_templates[:] = int(rng.integers(0, spec.n_templates))
         spec.spike_clusters = spec.spike_templates.copy()
         case = dict(case, ops=[o for o in case['ops'][1:]])
+    if case['seed'][-1] % 7 == 4 and spec.raw is not None and spec.raw.shape[0] > 40 and spec.raw_ext != '.npy':
+        # three raw files, the middle one shorter than a waveform window, and a spike right on it
+        n_ = spec.raw.shape[0]
+        spec.raw_parts = [n_ // 2, 2, n_ - n_ // 2 - 2]
+        ss_ = spec.spike_samples.copy()
+        ss_[len(ss_) // 2] = n_ // 2 + 1
+        spec.spike_samples = np.sort(ss_)
     if case['seed'][-1] % 10 == 6 and spec.raw is not None and spec.raw.shape[0] > 40 and not spec.raw_parts:
         # the raw file ends before the last spikes (accepted at load with a warning): they cannot be in the store
         cut = int(spec.spike_samples[len(spec.spike_samples) * 2 // 3])
